@@ -190,12 +190,6 @@ Definition get_bytes (fs : fields) (num : N) : list byte :=
 Definition has_field (fs : fields) (num : N) : bool :=
   match msg_fget fs num with [] => false | _ => true end.
 
-Fixpoint rt_find (fps : list fpair) (num : N) : option fpair :=
-  match fps with
-  | [] => None
-  | p :: r => if f_num (fst p) =? num then Some p else rt_find r num
-  end.
-
 (* ================================================================== encoder *)
 Section Enc.
   Variable cd : jcodec.
